@@ -1,1 +1,36 @@
-From PM Require Import Model.DomCtx.
+(* C19 — the part of HTML import that is decision logic: parse rules restricted by a context expression
+   apply exactly when the open ancestors match the expression.
+   [ctx_reading] is the declarative reading of one alternative "p1/p2/.../pk/": reading the parts from the
+   last to the first against the open nodes from the current one up to the root, a non-empty part stands for
+   exactly one node whose type name or group it is, an empty part in the middle ("//") for any number of
+   nodes, one leading and one trailing empty part mean nothing, and ancestors above the first part are not
+   constrained.  Theorems: for every schema, every non-empty stack of open nodes and every expression without
+   two adjacent empty parts (other than the trailing "a//"), ParseContext.matches_context answers true
+   exactly when some alternative reads true.  (Model.DomCtx is the model of matches_context for a closed
+   parse; it is compared with the implementation on random stacks and expressions on every run.)
+   The rest of C19 — the parser's state machine and the serializer run on lxml and are not modelled — is
+   decided per case by a verified oracle: every generated HTML fragment must parse into a document the Coq
+   validity checker [check] accepts (C07_check_iff), and export-then-import must give an equal document. *)
+From Coq Require Import List String.
+From PM Require Import Model.Data Model.DomCtx Proofs.DomCtxProofs.
+Import ListNotations.
+Local Open Scope string_scope.
+Local Open Scope list_scope.
+
+Theorem C19_context_alternative_applies_exactly_when_it_reads_true : forall s stack parts,
+  stack <> [] -> NoAdj (drop_head_empty (rev parts)) ->
+  matches_context_alt s stack parts = true <-> ctx_reading s stack parts.
+Proof. exact matches_context_alt_spec. Qed.
+Print Assumptions C19_context_alternative_applies_exactly_when_it_reads_true.
+
+Theorem C19_context_rule_applies_exactly_when_an_alternative_reads_true : forall s stack alts,
+  stack <> [] -> (forall parts, In parts alts -> NoAdj (drop_head_empty (rev parts))) ->
+  matches_context s stack alts = true <-> exists parts, In parts alts /\ ctx_reading s stack parts.
+Proof. exact matches_context_spec. Qed.
+Print Assumptions C19_context_rule_applies_exactly_when_an_alternative_reads_true.
+
+(* the hypothesis is met by the usual shapes: "a/b/", "a//b/", "/a/b", "a//" *)
+Example C19_wellformed_examples :
+  NoAdj (drop_head_empty (rev ["a"; "b"; ""])) /\ NoAdj (drop_head_empty (rev ["a"; ""; "b"; ""])) /\
+  NoAdj (drop_head_empty (rev [""; "a"; "b"])) /\ NoAdj (drop_head_empty (rev ["a"; ""; ""])).
+Proof. cbn. auto. Qed.
